@@ -66,6 +66,6 @@ def run(tier, seed, replay=None):
              "error column; square and rectangular, non-symmetric matrices; index files with 1-4 ranges",
         assumptions=["printf / strtod / column slicing are not modelled: `%.kf` is rounding to k decimals, setprecision(s) rounding to s significant digits",
                      "harness compiled with -DNDEBUG like a release build (an assert in Topology::RegisterBeadType aborts debug builds when a dump file uses numeric type 0)",
-                     "the DL_POLY writer keeps its frame counter in a function-local static, so each DL_POLY round trip runs in a forked process",
+                     "all formats are written and read in one process (several DL_POLY trajectories per process included)",
                      "H5MD (no writer) and the gromacs formats (not built) are outside the round-trip claim; csg_map executable chains are not run"],
         trivial_tags=())
